@@ -447,6 +447,7 @@ func (w *gworld) genRoutes() ([]route, []*bgp.Advertisement) {
 		seen[p.String()] = true
 		lp := []uint32{0, 100, 4294967295}[w.pick(3, "localpref")]
 		nc := []int{0, 0, 1, 3, 63}[w.pick(5, "ncommunities")]
+		w.stats[fmt.Sprintf("probe.communities-%d", nc)]++
 		var comms []community.BGPCommunity
 		var cs []string
 		for j := 0; j < nc; j++ {
@@ -607,6 +608,12 @@ func gnativeRun(env *runner.Env) (res *runner.Result) {
 			s.StallP = 8
 		}
 		s.Event("params myASN=%d peerASN=%d ibgp=%v peerAS4=%v hold=%v routerID=%v", w.myASN, w.peerASN, w.ibgp, w.peerAS4, w.hold, w.routerID)
+		w.stats[fmt.Sprintf("probe.my-asn-%d", w.myASN)]++
+		if w.ibgp {
+			w.stat("probe.ibgp-session")
+		} else {
+			w.stat("probe.ebgp-session")
+		}
 		sm := NewSessionManager(log.NewNopLogger())
 		s.GoNamed("workload", false, func() { w.workload(sm) })
 		unreachable := w.myASN > 65535 && !w.peerAS4
